@@ -64,6 +64,7 @@ def check(cx):
         'R8.5 every privileged letter used without the privilege is answered 482',
         'R8.6 every applied change is appended to the announcement with its own letter, sign and stored parameter, and the announcement goes to all members',
         'R8.7 every mode field written here is read by the enforcing handler and rendered by MODE query',
+        'R8.8 parameter cursor lock-step: for every parameter-taking letter the handler consumes one argument exactly where validate_channelmodes counted one (per letter and sign); an argument may stay unconsumed only on paths where the actor holds no privilege at all, so that a later letter of the same mode word can never be applied to a shifted parameter',
     ]
     ck.does_not_decide += ['that a concrete later JOIN/PRIVMSG observes the change (follows from R8.7 + C07/C10 on the same fields)']
     prog = cx.prog
@@ -275,6 +276,10 @@ def check(cx):
     if not e441:
         r5.violation('process_mode_channel|no-441', 'a rank change on a non-member is not answered with 441', loc=fc)
 
+    # ---------------------------------------------------------------- R8.8 parameter cursor
+    r8 = cx.rule('R8.8', 'parameter cursor lock-step with the validator', floor=10, kind='agreement')
+    check_cursor(cx, r8, w, mchar, sign, privf['halfop+'], fc)
+
     # ---------------------------------------------------------------- R8.7 writer / enforcer / renderer
     r7 = cx.rule('R8.7', 'written mode fields are enforced and rendered', floor=10, kind='agreement')
     written = set()
@@ -296,6 +301,80 @@ def check(cx):
     for f in ENFORCERS:
         if f not in written:
             r7.violation('process_mode_channel|never-writes|%s' % f, 'mode field %s can no longer be changed by MODE' % f, loc=fc)
+
+
+PARAM_LETTERS = 'beIovhqalk'
+
+
+def _next_events(w):
+    out = []
+    for e in w.events:
+        if e.kind == 'call' and e.data.get('name') == 'next' and e.data.get('args') and \
+                e.data['args'][0] == ('field', ('elem', MODES_P), '1'):
+            out.append(e)
+    return out
+
+
+def _validator_table(cx):
+    """V[L][s]: validate_channelmodes consumes an argument for letter L under sign s on input it accepts"""
+    fv = cx.fn('validate_channelmodes')
+    wv = cx.walk(fv, key='census')
+    nx = _next_events(wv)
+    if len(nx) < 6:
+        raise AnchorLost('validate_channelmodes: argument cursor (margs_it.next()) sites not found (%d)' % len(nx))
+    vchar = None
+    for e in nx:
+        for a in atoms(e.pc):
+            if a[0] == 'eq' and a[2][0] == 'lit' and isinstance(a[2][1], str) and len(a[2][1]) == 1:
+                vchar = a[1]
+    vsign = [a for e in nx for a in atoms(e.pc) if a[0] == 'truth' and a[1][0] == 'mvar']
+    vsign = vsign[0] if vsign else None
+    if vchar is None or vsign is None:
+        raise AnchorLost('validate_channelmodes: mode character / sign flag not found')
+    errs = [r.pc for r in wv.events if r.kind == 'return' and isinstance(r.data.get('value'), tuple) and r.data['value'][:1] == ('err',)]
+    table = {}
+    for L in PARAM_LETTERS:
+        table[L] = {}
+        for s in (True, False):
+            ctx = And(Atom(('eq', vchar, ('lit', L))), Atom(vsign) if s else Not(Atom(vsign)))
+            consumed = False
+            for x in nx:
+                if sat(And(x.pc, ctx)) is None:
+                    continue
+                some = Atom(('is', ('next', x.data['args'][0], x.seq), 'Some'))
+                # an argument that is present here and always rejected is not consumed on accepted input
+                rejected = errs and entails(And(x.pc, ctx, some), Or(*errs))[0]
+                if not rejected:
+                    consumed = True
+            table[L][s] = consumed
+    return table
+
+
+def check_cursor(cx, rule, w, mchar, sign, weakest, fc):
+    V = _validator_table(cx)
+    nx = _next_events(w)
+    if len(nx) < 6 or sign is None:
+        raise AnchorLost('process_mode_channel: argument cursor (margs_it.next()) sites not found (%d)' % len(nx))
+    # iteration condition: what every event of the letter loop has in common
+    inner = [e for e in w.events if len(e.loops) >= 2]
+    base = [c for c in conjuncts(inner[0].pc) if all(entails(e.pc, c)[0] for e in inner[:40])] if inner else []
+    I = And(*base) if base else T
+    for L in PARAM_LETTERS:
+        H = Or(*[x.pc for x in nx]) if nx else F
+        for s in (True, False):
+            ctx = And(I, Atom(('eq', mchar, ('lit', L))), Atom(sign) if s else Not(Atom(sign)))
+            rule.instance("'%s%s': validator counts %s argument" % ('+' if s else '-', L, 'one' if V[L][s] else 'no'))
+            if V[L][s]:
+                ok, m = entails(And(ctx, Not(H)), Not(weakest))
+                if not ok:
+                    rule.violation("process_mode_channel|cursor-skips|%s%s" % ('+' if s else '-', L),
+                                   "the argument of mode '%s%s' can stay unconsumed although the actor holds a privilege (%s): every later "
+                                   "parameter of the same mode word is then applied to the wrong letter" % ('+' if s else '-', L, model_str(m)), loc=fc)
+            else:
+                m = sat(And(ctx, H))
+                if m is not None:
+                    rule.violation("process_mode_channel|cursor-overruns|%s%s" % ('+' if s else '-', L),
+                                   "mode '%s%s' consumes an argument that the validator did not count for it" % ('+' if s else '-', L), loc=fc)
 
 
 def _lit_has(a, L):
